@@ -196,14 +196,16 @@ def build_harness(name, extra_flags=(), flags=None):
     os.makedirs(CACHE, exist_ok=True)
     exe = os.path.join(CACHE, "%s_%s" % (name, key))
     if os.path.exists(exe):
+        os.utime(exe, None)
         return True, exe, "cached"
-    # drop stale binaries of this harness
-    for fn in os.listdir(CACHE):
-        if fn.startswith(name + "_") and not fn.endswith(".lock"):
-            try:
-                os.unlink(os.path.join(CACHE, fn))
-            except OSError:
-                pass
+    # keep the two most recent binaries of this harness (clean tree + one variant), drop older ones
+    mine = sorted((fn for fn in os.listdir(CACHE) if fn.startswith(name + "_") and ".tmp" not in fn and not fn.endswith(".lock")),
+                  key=lambda fn: os.path.getmtime(os.path.join(CACHE, fn)), reverse=True)
+    for fn in mine[2:]:
+        try:
+            os.unlink(os.path.join(CACHE, fn))
+        except OSError:
+            pass
     tmp = exe + ".tmp%d" % os.getpid()
     rc, out = sh(["g++"] + use + [src, "-o", tmp], timeout=1800)
     if rc != 0:
